@@ -42,6 +42,11 @@ BASES = [
     (["pipeline", {}, [["detrend", {"degree": 1}]], ["naive", {"strategy": "last"}]],
      lambda: {"t0": [zoo.build_transformer(["detrend", {"degree": 2}]), zoo.build_transformer(["deseason", {"sp": 2, "model": "additive"}])],
               "forecaster": [zoo.build(["naive", {"strategy": "drift"}]), zoo.build(["poly", {"degree": 1}]), zoo.build(["naive", {"strategy": "mean", "window_length": 4}])]}),
+    (["multiplex", {"selected": 0}, [["naive", {"strategy": "last"}], ["poly", {"degree": 1}]]],
+     lambda: {"selected_forecaster": ["m0"], "m0": [zoo.build(["naive", {"strategy": "mean", "window_length": 3}]), zoo.build(["naive", {"strategy": "drift"}]),
+                                                   zoo.build(["naive", {"strategy": "last", "sp": 3}])]}),
+    (["multiplex", {"selected": 1}, [["naive", {"strategy": "last"}], ["poly", {"degree": 1}]]],
+     lambda: {"selected_forecaster": ["m0", "m1"], "m1": [zoo.build(["poly", {"degree": 2}]), zoo.build(["naive", {"strategy": "drift"}])]}),
     (["ensemble", {"aggfunc": "mean"}, [["naive", {"strategy": "last"}], ["poly", {"degree": 1}], ["naive", {"strategy": "drift"}]]],
      lambda: {"m0": [zoo.build(["naive", {"strategy": "mean", "window_length": 3}]), zoo.build(["poly", {"degree": 2}])],
               "m2": [zoo.build(["poly", {"degree": 0}]), zoo.build(["naive", {"strategy": "last", "sp": 2}])], "aggfunc": ["mean", "max"]}),
